@@ -360,9 +360,31 @@ def py_facts():
                 break
             f = m
         pt = None
+
+        def default_point(v, owner, depth=0):
+            """the split index used when none is given: `len(..) // 2`, possibly
+            computed by a helper method (its fall-through return) and through a
+            local holding the length"""
+            if isinstance(v, ast.Call) and isinstance(v.func, ast.Attribute) and \
+                    isinstance(v.func.value, ast.Name) and v.func.value.id == "self" and depth < 3:
+                for cn2 in cls:
+                    m2 = pyfront.class_members(cls[cn2]).get(v.func.attr)
+                    if isinstance(m2, ast.FunctionDef):
+                        rets = [r.value for r in ast.walk(m2) if isinstance(r, ast.Return) and r.value is not None]
+                        for r in reversed(rets):
+                            d = default_point(r, m2, depth + 1)
+                            if d and "//2" in d:
+                                return d
+                return pyfront.unparse(v).replace(" ", "")
+            if isinstance(v, ast.BinOp) and isinstance(v.op, ast.FloorDiv) and isinstance(v.left, ast.Name):
+                defs = [a2.value for a2 in ast.walk(owner) if isinstance(a2, ast.Assign) and len(a2.targets) == 1
+                        and isinstance(a2.targets[0], ast.Name) and a2.targets[0].id == v.left.id]
+                if len(defs) == 1:
+                    return "%s//%s" % (pyfront.unparse(defs[0]).replace(" ", ""), pyfront.unparse(v.right))
+            return pyfront.unparse(v).replace(" ", "")
         for a in ast.walk(f):
             if isinstance(a, ast.Assign) and pyfront.unparse(a.targets[0]) == "index":
-                pt = pyfront.unparse(a.value).replace(" ", "")
+                pt = default_point(a.value, f)
         import re as _re
         sp[cname + "._split"] = "len/2" if pt and _re.match(
             r"^len\((self\._keys|self\._data|data|keys)\)//2$", pt) else pt
